@@ -378,6 +378,16 @@ def oracle_case(i, seed):
             f2 = F((rot[0], math.pi - rot[1], rot[2] + math.pi))
             if not (float(np.abs(f2 - f0).max()) <= 1e-5 * sc_):
                 viol.append(_v("C10:axis-reversal", "%s: reversing the axis direction changes the field by %.3g" % (kind, np.abs(f2 - f0).max() / sc_), info))
+            # exact special orientations: upright vs exactly upside down (beta = pi, -pi, 3 pi), and lying on its side reversed
+            for ra, rb, label in (((rot[0], 0.0, rot[2]), (rot[0], math.pi, rot[2]), "beta = 0 vs pi"),
+                                  ((rot[0], 0.0, rot[2]), (rot[0], -math.pi, rot[2] + 1.0), "beta = 0 vs -pi"),
+                                  ((rot[0], 0.0, 0.3), (rot[0], 3 * math.pi, 0.3), "beta = 0 vs 3 pi"),
+                                  ((rot[0], math.pi / 2, rot[2]), (rot[0], math.pi / 2, rot[2] + math.pi), "beta = pi/2, alpha vs alpha + pi")):
+                fa_, fb_ = F(ra), F(rb)
+                if not (float(np.abs(fa_ - fb_).max()) <= 1e-5 * float(np.abs(fa_).max())):
+                    viol.append(_v("C10:axis-reversal:exact", "%s: the same particle described with %s gives fields differing by %.3g" % (kind, label, np.abs(fa_ - fb_).max() / np.abs(fa_).max()),
+                                   dict(ra=list(ra), rb=list(rb), **info)))
+                    break
             # angles shifted by multiples of 2 pi
             f5 = F((rot[0], rot[1] + 2 * math.pi * int(rng.integers(-2, 3)), rot[2] + 2 * math.pi * int(rng.integers(-2, 3))))
             if not (float(np.abs(f5 - f0).max()) <= 1e-5 * sc_):
